@@ -126,6 +126,10 @@ func TestC08(t *testing.T) {
 			j := rapid.IntRange(0, len(d.Insts)-1).Draw(t, "huge-at")
 			n := rapid.SampledFrom([]int{200000, 279619, 279620, 279621, 300000, 559241, 4473924, 4473925, 5000000, 1 << 40}).Draw(t, "huge-n")
 			d.Insts[j].Values = []Frac{{n, rapid.SampledFrom([]int{1, 1, 2, 3}).Draw(t, "huge-d")}}
+			if coin(t, "exact-boundary", 35) {
+				// exactly the largest delta an SMF can hold (2^28-1 ticks), one more, and two more
+				d.Insts[j].Values = [][]Frac{{{268435455, 960}}, {{268435456, 960}}, {{4194304, 15}}, {{279620, 1}, {4, 15}}, {{268435457, 960}}, {{279620, 1}, {255, 960}}}[rapid.IntRange(0, 5).Draw(t, "boundary")]
+			}
 			if coin(t, "two-huge-rests", 30) {
 				d.Insts = append(d.Insts, Inst{Values: []Frac{{150000, 1}}}, Inst{Values: []Frac{{150000, 1}}}, Inst{Chord: &ChordSpec{Deg: IV{1, 2}, Sym: "m"}, Values: []Frac{{1, 1}}})
 			}
